@@ -9,6 +9,7 @@ import (
 
 	ipfslog "berty.tech/go-ipfs-log"
 	"berty.tech/go-ipfs-log/iface"
+	"berty.tech/go-orbit-db/internal/verifhook"
 	cid "github.com/ipfs/go-cid"
 	"github.com/libp2p/go-libp2p/core/event"
 	"github.com/libp2p/go-libp2p/p2p/host/eventbus"
@@ -195,16 +196,19 @@ func (r *replicator) Load(ctx context.Context, entries []ipfslog.Entry) {
 // processOne wait for a process slot then process one element of the queue
 func (r *replicator) processOne(ctx context.Context, wg *sync.WaitGroup) error {
 	// wait for a process slot
+	verifhook.Point("replicator.before_slot")
 	e, err := r.waitForProcessSlot(ctx)
 	if err != nil {
 		return err
 	}
+	verifhook.Point("replicator.after_dequeue", e.GetHash().String())
 
 	if err := r.processItems(ctx, wg, e); err != nil {
 		r.logger.Warn("process item ended", zap.Error(err))
 	}
 
 	// mark this process has done
+	verifhook.Point("replicator.before_done", e.GetHash().String())
 	r.processEntryDone(e)
 	return nil
 }
@@ -414,6 +418,7 @@ func (r *replicator) idle() {
 	r.muBuffer.Lock()
 
 	if len(r.buffer) > 0 {
+		verifhook.Point("replicator.load_end")
 		if err := r.emitters.evtLoadEnd.Emit(NewEventLoadEnd(r.buffer)); err != nil {
 			r.logger.Warn("unable to emit event load end", zap.Error(err))
 		}
